@@ -61,7 +61,8 @@ def pair_tables(pool, kind, se, sc):
                 continue
             src = f"{decl(kind, a)}\n{decl(kind, b)}\n"
             jobs.append({"id": len(jobs), "src": src,
-                         "opts": {"style_edition": se, "skip_children": True},
+                         # (edition 2018: a leading `::` is significant and kept)
+                         "opts": {"style_edition": se, "skip_children": True, "edition": "2018"},
                          "want": ["out"]})
             idx.append((i, j))
     res = ucore.run_jobs(jobs, sc)
@@ -78,9 +79,18 @@ def pair_tables(pool, kind, se, sc):
             keeps[i][j] = False
         else:
             bad.append((pool[i], pool[j], out[:120], o.get("err") or o.get("panic")))
-            keeps[i][j] = True
-            keeps[j][i] = True
-    return keeps, bad
+            keeps[i][j] = None
+    # a pair whose two declarations cannot be told apart in the output (merged, rewritten) says
+    # nothing about the order: the name met later is dropped from the table
+    drop = set()
+    for i in range(n):
+        for j in range(n):
+            if keeps[i][j] is None and i not in drop and j not in drop:
+                drop.add(max(i, j))
+    keep_idx = [i for i in range(n) if i not in drop]
+    keeps = [[bool(keeps[i][j]) if keeps[i][j] is not None else True for j in keep_idx]
+             for i in keep_idx]
+    return keeps, bad, [pool[i] for i in keep_idx]
 
 
 def group_scenarios(rng, tier):
@@ -185,7 +195,7 @@ def run(tier, seed, replay=None):
             if kind == "extern":
                 pl = [p for p in pl if not p.startswith("r#")]
             for se in ("2015", "2024"):
-                keeps, bad = pair_tables(pl, kind, se, sc)
+                keeps, bad, pl = pair_tables(pl, kind, se, sc)
                 n_pairs += len(pl) * (len(pl) - 1)
                 if bad:
                     log(f"[note] {kind}/{se}: {len(bad)} pairs not recognisable in the output, "
